@@ -20,6 +20,7 @@ import Fca.Drv.C19
 import Fca.Drv.C05
 import Fca.Drv.C09
 import Fca.Drv.C17
+import Fca.Drv.C12
 open Lean Fca.Drv
 
 def allHandlers : List (String × Handler) :=
@@ -40,7 +41,8 @@ def allHandlers : List (String × Handler) :=
   Fca.Drv.C19.handlers ++
   Fca.Drv.C05.handlers ++
   Fca.Drv.C09.handlers ++
-  Fca.Drv.C17.handlers
+  Fca.Drv.C17.handlers ++
+  Fca.Drv.C12.handlers
 
 def dispatch (line : String) : String :=
   match Json.parse line with
